@@ -41,3 +41,35 @@ def collect_on(tier: str, prop: str) -> list[dict]:
     return base + extra
 
 
+
+
+def offpolicy(tier: str, prop: str) -> list[dict]:
+    """DQN / SAC shape classes.  `buffer` is the algorithm's buffer_size (split over nodes)."""
+    dqn = dict(algo="DQN", kind="discrete", obs_kind="box", sgd=True, max_iter=6)
+    sac = dict(algo="SAC", obs_kind="box", max_iter=6)
+    collect = [
+        dict(dqn, dims=[3], S=5, n=1, T=3, buffer=6, starts=2, batch=2, interval=2, epsilon=0.3, stack=["TimeLimit"]),
+        dict(dqn, dims=[2], S=4, n=2, T=2, buffer=8, starts=0, batch=2, interval=3, epsilon=1.0, stack=["TimeLimit"], obs_kind="dict"),
+        dict(dqn, dims=[4], S=6, n=3, T=1, buffer=9, starts=5, batch=3, interval=1, epsilon=0.0, stack=[]),
+        dict(dqn, dims=[2], S=3, n=1, T=4, buffer=3, starts=1, batch=1, interval=4, epsilon=0.5, stack=["TimeLimit"], obs_kind="discrete"),
+        dict(sac, kind="box", dims=[2, 2], S=4, n=2, T=2, buffer=8, starts=3, batch=4, pfreq=2, autotune=True, stack=["TimeLimit"]),
+        dict(sac, kind="boxscalar", dims=[4], S=5, n=1, T=3, buffer=5, starts=2, batch=2, pfreq=1, autotune=False, stack=["TimeLimit"], obs_kind="tuple"),
+        dict(sac, kind="box", dims=[2], S=4, n=3, T=1, buffer=12, starts=1, batch=3, pfreq=3, autotune=True, stack=[]),
+    ]
+    full = [  # batch == whole buffer from the first iteration on: the TD oracle applies
+        dict(dqn, dims=[3], S=6, n=1, T=2, buffer=6, starts=6, batch=6, interval=2, epsilon=0.5, stack=["TimeLimit"]),
+        dict(dqn, dims=[2], S=5, n=2, T=1, buffer=8, starts=4, batch=8, interval=3, epsilon=1.0, stack=["TimeLimit"]),
+        dict(dqn, dims=[4], S=8, n=1, T=3, buffer=12, starts=12, batch=12, interval=1, epsilon=0.3, stack=[]),
+        dict(sac, kind="box", dims=[2], S=5, n=1, T=2, buffer=6, starts=6, batch=6, pfreq=2, autotune=True, stack=["TimeLimit"]),
+        dict(sac, kind="boxscalar", dims=[2], S=4, n=2, T=1, buffer=8, starts=4, batch=8, pfreq=1, autotune=False, stack=["TimeLimit"]),
+        dict(sac, kind="box", dims=[2, 2], S=6, n=1, T=1, buffer=10, starts=10, batch=10, pfreq=3, autotune=True, stack=[]),
+    ]
+    if prop == "C07":
+        out = full
+    elif prop == "C10":
+        out = full + collect[:1] + collect[4:6]
+    elif prop == "C12":
+        out = [c for c in collect + full if c["n"] > 1]
+    else:
+        out = collect + full[:1] + full[3:4]
+    return out
